@@ -541,6 +541,15 @@ func (bc *boundsCtx) modifiedBetween(ef, from int, use Loc, roots map[string]boo
 func (bc *boundsCtx) constraintsAt(use Loc, useNode ast.Node) []dbc {
 	g := bc.g
 	var out []dbc
+	// short-circuit facts inside the CFG node that contains the use:
+	// in `A || B` B is evaluated only when A is false, in `A && B` only when true.
+	if use.B < len(g.C.Blocks) && use.I < len(g.C.Blocks[use.B].Nodes) {
+		for _, f := range shortCircuitFacts(g.C.Blocks[use.B].Nodes[use.I], useNode) {
+			if pureExpr(f.Cond) {
+				out = bc.relOf(f, out)
+			}
+		}
+	}
 	for _, b := range g.C.Blocks {
 		if !g.live[b.Index] {
 			continue
@@ -1152,5 +1161,150 @@ func dedupe(s []string) []string {
 			out = append(out, x)
 		}
 	}
+	return out
+}
+
+// AllocCheck proves, for every make(T, n[, m]) with a non-constant size in
+// the body, that n >= 0 and that n is bounded above by the length of some
+// slice/string in scope (plus a constant) or by a constant <= maxConst.
+func AllocCheck(f *Func, body *ast.BlockStmt, g *Graph, sums map[string]calleeSummary, maxConst int64) []Sink {
+	bc := &boundsCtx{f: f, g: g, info: f.Info(), body: body, sum: sums}
+	var sinks []Sink
+	ast.Inspect(body, func(x ast.Node) bool {
+		if x == nil {
+			return false
+		}
+		if lit, ok := x.(*ast.FuncLit); ok && lit.Body != body {
+			return false
+		}
+		call, ok := x.(*ast.CallExpr)
+		if !ok {
+			return true
+		}
+		id, ok := unparen(call.Fun).(*ast.Ident)
+		if !ok || id.Name != "make" || len(call.Args) < 2 {
+			return true
+		}
+		if _, isB := bc.info.Uses[id].(*types.Builtin); !isB {
+			return true
+		}
+		for ai, szArg := range call.Args[1:] {
+			if _, isConst := constInt(bc.info, szArg); isConst {
+				continue
+			}
+			desc := exprStr(call)
+			if ai == 1 {
+				desc += " (cap)"
+			}
+			sz := bc.linOf(szArg)
+			use, okl := g.LocOf(call)
+			if !sz.ok || !okl {
+				sinks = append(sinks, Sink{call, desc, false, "size not analysable"})
+				continue
+			}
+			if !g.Reachable(use) {
+				continue
+			}
+			cs := bc.constraintsAt(use, call)
+			cs = bc.defConstraints(use, call, cs)
+			cs = bc.shapeBounds(szArg, cs)
+			terms := map[string]bool{}
+			for _, c := range cs {
+				terms[c.x] = true
+				terms[c.y] = true
+			}
+			for t := range terms {
+				if strings.HasPrefix(t, "len(") {
+					cs = append(cs, dbc{t, "", 0, "len>=0"})
+				}
+				if t != "" && !strings.ContainsAny(t, "(.[ +-*") && bc.monotoneNonNeg(t) {
+					cs = append(cs, dbc{t, "", 0, "counter"})
+				}
+			}
+			sv := newSolver(cs)
+			var missing []string
+			if !sv.proves(sz.term, "", -sz.off) {
+				missing = append(missing, "size >= 0")
+			}
+			bounded := ""
+			if sz.term == "" {
+				bounded = "constant"
+			}
+			// by a len term: len(X) - size >= -K for a small K
+			for t := range terms {
+				if bounded != "" {
+					break
+				}
+				if strings.HasPrefix(t, "len(") || strings.HasPrefix(t, "cap(") {
+					if lb, ok := sv.lower(t, sz.term); ok && lb >= sz.off-1024 {
+						bounded = "<= " + t + fmt.Sprintf("%+d", sz.off-lb)
+					}
+				}
+			}
+			if bounded == "" {
+				if lb, ok := sv.lower("", sz.term); ok && -lb+sz.off <= maxConst {
+					bounded = fmt.Sprintf("<= %d", -lb+sz.off)
+				}
+			}
+			if bounded == "" {
+				missing = append(missing, "upper bound by remaining input or a constant")
+			}
+			why := ""
+			if len(missing) > 0 {
+				var used []string
+				for _, c := range cs {
+					if c.why != "len>=0" && c.why != "cap>=len" {
+						used = append(used, c.why)
+					}
+				}
+				sort.Strings(used)
+				why = "cannot prove " + strings.Join(missing, ", ") + "; facts in scope: [" + strings.Join(dedupe(used), "; ") + "]"
+			}
+			sinks = append(sinks, Sink{call, desc, len(missing) == 0, why + bounded})
+		}
+		return true
+	})
+	return sinks
+}
+
+// shortCircuitFacts returns the facts implied by short-circuit evaluation
+// for target inside root.
+func shortCircuitFacts(root, target ast.Node) []Fact {
+	var out []Fact
+	var walk func(n ast.Node) bool
+	contains := func(n ast.Node) bool { return n != nil && n.Pos() <= target.Pos() && target.End() <= n.End() }
+	walk = func(n ast.Node) bool {
+		if n == target {
+			return true
+		}
+		found := false
+		ast.Inspect(n, func(x ast.Node) bool {
+			if x == nil || found {
+				return false
+			}
+			if x == n {
+				return true
+			}
+			if !contains(x) {
+				return false
+			}
+			if b, ok := x.(*ast.BinaryExpr); ok && (b.Op == token.LOR || b.Op == token.LAND) && contains(b.Y) {
+				out = decompose(b.X, b.Op == token.LAND, out)
+			}
+			if _, ok := x.(*ast.FuncLit); ok {
+				return false
+			}
+			if x == target {
+				found = true
+				return false
+			}
+			return true
+		})
+		return found
+	}
+	if b, ok := root.(*ast.BinaryExpr); ok && (b.Op == token.LOR || b.Op == token.LAND) && contains(b.Y) {
+		out = decompose(b.X, b.Op == token.LAND, out)
+	}
+	walk(root)
 	return out
 }
